@@ -57,6 +57,13 @@ def run_codec(ctx) -> RuleResult:
         if module.is_pyx:
             continue
         for node in ast.walk(func):
+            if isinstance(node, ast.AugAssign) and isinstance(node.op, (ast.Add, ast.Sub)) and _is_key_offset(ctx, module, node.value):
+                n_enc += 1
+                ok = isinstance(node.op, ast.Add)
+                result.ob(f"{module.name}.{qual}: encode site is '<exponents> += KEY_OFFSET'", ok, module.loc(node), U(node))
+                if not ok:
+                    result.add(Finding("R-CODEC", module, qual, node, "exponents are encoded with '-=' instead of '+'"))
+                continue
             if not isinstance(node, ast.BinOp) or not isinstance(node.op, (ast.Add, ast.Sub)):
                 continue
             owner = node
